@@ -76,6 +76,9 @@ func (x *Exec) heapSet(st *State, key string, t *Term) {
 	if _, ok := x.heapSort[key]; !ok {
 		x.heapSort[key] = t.S
 	}
+	if key != allocKey && !x.freshOnlyWrite(st, key, t) {
+		x.dirty[key] = true
+	}
 	if t.dep > 24 {
 		// long chains of updates (big composite literals): name the intermediate heap so that terms stay small
 		c := x.D.fresh("H."+key+".n", t.S)
@@ -167,6 +170,7 @@ func (x *Exec) mapGet(st *State, mt *types.Map, m, k *Term) *Val {
 func (x *Exec) havocAbstractMap(st *State, mt *types.Map) {
 	for _, key := range mapKeys(mt) {
 		if s, ok := x.heapSort[key]; ok {
+			x.dirty[key] = true
 			st.heap[key] = x.D.fresh("H."+key+".abs", s)
 		}
 	}
@@ -501,4 +505,21 @@ func (x *Exec) nilMapFact(key string, h *Term) {
 		return
 	}
 	x.asserts = append(x.asserts, tEq(tSelect(h, intLit(0)), constArr(inner, tFalse)))
+}
+
+// freshOnlyWrite: the new heap value is the current one updated only at objects allocated by this function
+// (newRef constants). While every write under a key is of that kind, the key's frame condition holds by construction.
+func (x *Exec) freshOnlyWrite(st *State, key string, t *Term) bool {
+	cur, ok := st.heap[key]
+	for t.Op == "store" && len(t.Args) == 3 && len(t.Args[1].Args) == 0 && strings.HasPrefix(t.Args[1].Op, "ref.") {
+		t = t.Args[0]
+		if ok && t == cur {
+			return true
+		}
+	}
+	if !ok {
+		// first materialisation: the base must be the initial heap symbol of this key
+		return len(t.Args) == 0 && strings.HasPrefix(t.Op, "H.") && strings.HasSuffix(t.Op, "@0")
+	}
+	return t == cur || t.String() == cur.String()
 }
